@@ -21,7 +21,7 @@ EXPLANATION = (
     "comparisons against keywords are case-insensitive: every comparison of a segment/token text with a literal containing a letter uses a "
     "case-folded projection (raw_upper, normalized, .upper(), .lower()) and the literal's case matches the projection; R07.3 qualifier parts "
     "are normalised part by part before they are joined (a composite is never handed to the normaliser with its inner quotes); R07.4 extra "
-    "trailing semicolons and comment-only pieces are dropped by the two stated reasons only (= R05.2). Does not decide: quoting rules "
+    "trailing semicolons and comment-only pieces are dropped by the two stated reasons only (= R05.2). R07.5 SQL text that is analysed afterwards is never re-flowed (no whitespace collapsing: a newline ends a line comment). Does not decide: quoting rules "
     "(C16), what the two lexers do with whitespace."
 )
 RULE_TEXT = "one obligation per positional consumer on segment/token sequences, per flag loop, per keyword comparison"
@@ -238,6 +238,52 @@ def rules(ctx: Ctx) -> None:
     sp = prog.fn("SqlParseLineageAnalyzer.analyze")
     ctx.ob("R07.1", "sqlparse-analyzer-strips-comments-first", any(isinstance(k, ast.Call) and "trim_comment" in u(k.func) for k in prog.walk_fn(sp)), sp.loc(),
            "the non-validating analyzer parses the statement with comments removed")
+
+    # ---- R07.5 SQL text is never re-flowed before it is analysed -------------------------------------------
+    # A newline ends a `--` comment: collapsing whitespace (`" ".join(text.split())`, re.sub(r"\s+", " ", text)) in text that is
+    # analysed afterwards lets a line comment swallow the code that followed it.
+    n_scanned = 0
+    for f in prog.funcs.values():
+        if f.mod.name in ("sqllineage.cli", "sqllineage.drawing") or f.name in ("__str__", "__repr__"):
+            continue
+        n_scanned += 1
+        for k in prog.walk_fn(f):
+            collapsed = None
+            if isinstance(k, ast.Call) and isinstance(k.func, ast.Attribute) and k.func.attr == "join" and len(k.args) == 1:
+                inner = k.args[0]
+                if isinstance(inner, (ast.GeneratorExp, ast.ListComp)) and len(inner.generators) == 1:
+                    inner = inner.generators[0].iter
+                if isinstance(inner, ast.Call) and isinstance(inner.func, ast.Attribute) and inner.func.attr in ("split", "splitlines") and not inner.args:
+                    collapsed = inner.func.value
+            elif isinstance(k, ast.Call) and isinstance(k.func, ast.Attribute) and k.func.attr == "sub" and len(k.args) >= 3:
+                pat = prog.try_fold(k.args[0], f.mod, f)
+                if isinstance(pat, str) and ("\\s" in pat or "\\n" in pat or "\n" in pat):
+                    collapsed = k.args[2]
+            elif isinstance(k, ast.Call) and isinstance(k.func, ast.Attribute) and k.func.attr == "replace" and len(k.args) == 2 and prog.try_fold(k.args[0], f.mod, f) == "\n":
+                collapsed = k.func.value
+            if collapsed is None:
+                continue
+            is_sql_text = any((isinstance(x, ast.Attribute) and x.attr in ("raw", "value", "_sql")) or (isinstance(x, ast.Name) and x.id in f.params() and x.id in ("sql", "statement", "stmt", "query"))
+                              for x in prog.influences(f, collapsed))
+            if not is_sql_text:
+                continue
+            # only a violation when the re-flowed text is analysed (handed to a runner / analyzer / parser), not when it is only displayed
+            st = prog.enclosing_stmt(k)
+            tgt = st.targets[0].id if isinstance(st, ast.Assign) and len(st.targets) == 1 and isinstance(st.targets[0], ast.Name) else None
+            analysed = False
+            for c in prog.walk_fn(f):
+                if isinstance(c, ast.Call) and not (isinstance(c.func, ast.Attribute) and c.func.attr in ("warn", "debug", "info", "warning", "error", "format")):
+                    for a in list(c.args) + [kw.value for kw in c.keywords]:
+                        if any(x is k for x in ast.walk(a)) or (tgt is not None and any(isinstance(x, ast.Name) and x.id == tgt for x in ast.walk(a))):
+                            nm = c.func.attr if isinstance(c.func, ast.Attribute) else c.func.id if isinstance(c.func, ast.Name) else ""
+                            if nm not in ("len", "str", "print", "join", "split", "replace", "strip", "startswith", "endswith", "append") and c is not k:
+                                analysed = True
+                if isinstance(c, ast.Return) and c.value is not None and (any(x is k for x in ast.walk(c.value)) or (tgt is not None and any(isinstance(x, ast.Name) and x.id == tgt for x in ast.walk(c.value)))):
+                    analysed = True
+            owner = f"{f.cls.name}.{f.name}" if f.cls else f.name
+            ctx.ob("R07.5", f"sql-text-not-reflowed:{owner}", not analysed, loc(f.mod, k),
+                   f"`{u(k)[:70]}` collapses line breaks in SQL text that is analysed afterwards: a `--` comment then swallows the code after it")
+    ctx.ob("R07.5", "sql-text-not-reflowed:scanned", True, "sqllineage/", f"{n_scanned} functions scanned for whitespace-collapsing of SQL text", trivial=True)
 
 
 def _text_projection(e: ast.AST) -> Optional[str]:
